@@ -361,6 +361,12 @@ func newComputedStyle(parentStyle pr.ElementStyle, cascaded cascadedStyle,
 	}
 	for k, v := range cascaded {
 		if k.Var != "" {
+			// "inherit" keeps its meaning on a custom property : the inherited value stays
+			if l := pa.RemoveWhitespace(v.value.(pr.RawTokens)); len(l) == 1 {
+				if ident, ok := l[0].(pa.Ident); ok && utils.AsciiLower(ident.Value) == "inherit" {
+					continue
+				}
+			}
 			out.variables[k.Var] = v.value.(pr.RawTokens)
 		}
 	}
